@@ -23,7 +23,7 @@ func init() {
 		Property: "C08", Name: "R-chain/sign", Level: "exploration",
 		Rule: "the core is a pure function of the wire bytes (who signed what); simulation contributes only the pipeline position of the tampering (mempool admission, inside a proposed block) and the sender-cache state (transaction cached+BasicChecked in the replica's mempool or not, cache entries expired by virtual time or not). " +
 			"One run = one seeded chain (1-4 validators, 4-8 secp256k1 users with coin and two token balances, kv or trie state; in 2/3 of the runs also 3 confidential wallets with 2 sub-addresses each and 2 stranger key sets) with a block producer P and an honest replica R (real LinkApplication + Mempool with the tx cache on), 2-6 blocks. Per block: 2-10 transactions of the kinds transfer / contract call / contract creation / token transfer (LKC and tokens) / contract upgrade (multi-signed) / multi-sign-account (validator-signed) / account->UTXO funding / UTXO->UTXO spend (ring 1 = classic ring signature, ring 2-11 = MLSAG; change to a sub-address) / UTXO->account withdrawal, signed by linkchain's own client code or (transfers, token transfers) by the rig's btcec client; each goes over the wire to P and (warm cache) or not (cold) to R. " +
-			"Tamper catalogue on the wire bytes (77 entries: every signed field of every account kind, multi-field, r/s/v = 0, = N, > N, 33-byte, r+N wrapped, r and s swapped, high-s twin with and without flipped recovery id for this chain's V, for the legacy V 27/28 form (the holder signs the bare field list, a third party turns (r,s,v) into (r,N-s,v^1)) and for another chain's V, the out-of-range values again under a legacy V, wrong/out-of-range recovery id, V legacy 27/28, raw recovery id, other chain, +2^64, +256, bit flips, signature from another tx, re-signed by another key / for another chain / for no chain, upgrade signature lists dropped/emptied/duplicated/reversed/all replaced by their twins/sender removed/colluding co-signers naming a victim, validator signatures flipped/truncated/emptied/minority/repeated/duplicated/filed under another validator/made by non-validators/re-signed by a minority; the twin encodings get a fixed 1/6 share of the draws) and on confidential transactions (54 entries: account input nonce/amount, key image, ring member, one-time address, remark, amount field, account output recipient/amount, token, tx key, additional keys, fee, extra, account signature, encrypted amounts, output commitments, range proof, amounts moved to one recipient, pseudo output, MLSAG c/s, classic ring signature, type, fee field; structural edits of the spend authorisation in every combination for short-ring (ring 1, classic signatures in P.Ss) and MLSAG transactions with one and two inputs: P.Ss emptied / last dropped / first dropped / zeroed / swapped / repeated / extended, P.MGs emptied / truncated / extended / rows dropped / last row dropped / commitment column dropped / c zeroed / swapped, both emptied, pseudo outputs dropped / swapped / moved, ring re-declared as short form or grown out of it, input repeated / dropped, commitments / encrypted amounts / range proof dropped or repeated, pairs of these; a spend built with another wallet's keys) plus thefts: spends of existing outputs written from scratch by a key set that owns nothing (9 forms: no signature, no signature and no slot, zero / random signature, classic signature or MLSAG made with the thief's own secret, empty / random MLSAG, two inputs with one unsigned; public parts all consistent), offered (1) to R's mempool, (2) inside a block whose result hashes the producer computed as if the victim had sent it (sender pre-filled) or honestly, to R.CheckBlock, and (3) IN FLIGHT: the forged transaction is submitted to R's mempool on a goroutine of its own, which the simulator parks inside the mempool.App wrapper at CheckTx(tx, BasicCheck) — after Mempool.AddTx has put the entry into the tx cache, before it marks the entry checked or deletes it, no lock held — either before the application's basic check has run or after it has returned (tape), and while it is parked the driver runs R.CheckBlock of a fresh block carrying the same forgery (sometimes instead before the submission or after it has returned), then releases it; 1-3 such flights per round, ring-signed spends/thefts and validator-signed transactions first. One tampered transfer per run is planned before genesis so that the account it recovers to is funded (the different sender is really charged). " +
+			"Tamper catalogue on the wire bytes (77 entries: every signed field of every account kind, multi-field, r/s/v = 0, = N, > N, 33-byte, r+N wrapped, r and s swapped, high-s twin with and without flipped recovery id for this chain's V, for the legacy V 27/28 form (the holder signs the bare field list, a third party turns (r,s,v) into (r,N-s,v^1)) and for another chain's V, the out-of-range values again under a legacy V, wrong/out-of-range recovery id, V legacy 27/28, raw recovery id, other chain, +2^64, +256, bit flips, signature from another tx, re-signed by another key / for another chain / for no chain, upgrade signature lists dropped/emptied/duplicated/reversed/all replaced by their twins/sender removed/colluding co-signers naming a victim, validator signatures flipped/truncated/emptied/minority/repeated/duplicated/filed under another validator/made by non-validators/re-signed by a minority; the twin encodings get a fixed 1/6 share of the draws) and on confidential transactions (54 entries: account input nonce/amount, key image, ring member, one-time address, remark, amount field, account output recipient/amount, token, tx key, additional keys, fee, extra, account signature, encrypted amounts, output commitments, range proof, amounts moved to one recipient, pseudo output, MLSAG c/s, classic ring signature, type, fee field; structural edits of the spend authorisation in every combination for short-ring (ring 1, classic signatures in P.Ss) and MLSAG transactions with one and two inputs: P.Ss emptied / last dropped / first dropped / zeroed / swapped / repeated / extended, P.MGs emptied / truncated / extended / rows dropped / last row dropped / commitment column dropped / c zeroed / swapped, both emptied, pseudo outputs dropped / swapped / moved, ring re-declared as short form or grown out of it, input repeated / dropped, commitments / encrypted amounts / range proof dropped or repeated, pairs of these; a spend built with another wallet's keys) plus thefts: spends of existing outputs written from scratch by a key set that owns nothing (9 forms: no signature, no signature and no slot, zero / random signature, classic signature or MLSAG made with the thief's own secret, empty / random MLSAG, two inputs with one unsigned; public parts all consistent), offered (1) to R's mempool, (2) inside a block whose result hashes the producer computed as if the victim had sent it (sender pre-filled) or honestly, to R.CheckBlock, and (3) IN FLIGHT: the forged transaction is submitted to R's mempool on a goroutine of its own, which the simulator parks inside the mempool.App wrapper at CheckTx(tx, BasicCheck) — after Mempool.AddTx has put the entry into the tx cache, before it marks the entry checked or deletes it, no lock held — either before the application's basic check has run or after it has returned (tape), and while it is parked the driver runs R.CheckBlock of a fresh block carrying the same forgery (sometimes instead before the submission or after it has returned), then releases it; 1-3 such flights per round, ring-signed spends/thefts and validator-signed transactions first. OBJECT HISTORY: before every judged call on a tampered or forged object (pool submission, block verification, flight) the rig performs a tape-chosen prefix of 0-3 observer calls on the SAME decoded object — From(), From() twice, String() (log formatting), Hash(), Size(), AsMessage(), the application's basic check once already, a pool submission once already — and asks From() once more after the judged call; every look is judged (From() returns no sender without error for a signature the oracle says recovers nobody and the oracle's signer for an authorised one; a failed recovery is not followed by a successful one on the same object; the sender does not change between looks; a passing basic check / pool admission at any look is an acceptance). In a third of the runs the zero address is a funded account (coin and tokens, nonce 0-2) and is watched by the before/after-balance oracle; in a quarter of the unauthorised block variants the proposer names another funded account (or the funded zero address) as sender in its own execution. One tampered transfer per run is planned before genesis so that the account it recovers to is funded (the different sender is really charged). " +
 			"Oracle: the rig's own reading of the wire bytes (own RLP reader, own signing hash keccak(rlp(fields, chainParameter, 0, 0)), pure-Go btcec recovery, stdlib ed25519, range rules 1<=r<N, 1<=s<=N/2 whatever V says, V=35+2p+recid) says whether a transaction is authorised and whom it charges; ring-signed transactions are authorised iff they are byte-for-byte what an owner built (every edit is a forgery by construction); recognition ground truth is what the rig addressed to whom. Violations: accepted+unauthorised; accepted with another believed sender; accepted with an edited field and the original sender; a victim-charging block accepted; after every commit nonce/balance/token movements (own pre/post state reads of users, signers, victims) that differ from the authorised senders; an output missed by its owner, recognised by another key set, or decoded to another amount/sub-address; a re-signed object that keeps its memoised sender. " +
 			"non-trivial = >= 2 blocks committed, >= 10 tampered transactions judged at the mempool, >= 3 tampered blocks judged, at least one with a warm cache, at least one block verified while its forged transaction was parked inside AddTx; distinct = committed block hashes + every (tamper, stage, outcome).",
 		Real: []string{"types.Transaction / TokenTransaction / ContractUpgradeTx / MultiSignAccountTx / UTXOTransaction (client-side construction and Sign, wire codec, Hash, From, CheckBasic, CheckState, checkRingctSignatures, isOutputBelongToAccount, generateKeyImage, generateOneTimeAddress)", "types STDEIP155Signer, recoverPlain", "libs/crypto secp256k1 (cgo) Sign/Ecrecover/ValidateSignatureValues", "mempool.Mempool incl. tx cache (txHeapManager, CacheSize = default > 0 on the replica), key-image cache and the expiry loops under virtual time; Mempool.AddTx running concurrently with App.CheckBlock at the park points", "app.LinkApplication CheckTx/PreRunBlock/CheckBlock (verifyTxsOnProcess, verifySpecTxSign)/CommitBlock, StateProcessor, state transition, EVM", "txmgr multi-signer records", "BlockStore, UtxoStore, StateDB over SimDB", "block part-set wire round trip"},
@@ -115,6 +115,8 @@ type runner struct {
 	fl                                          *kernel.Tape       // in-flight scenarios (stream of its own)
 	park                                        *parkApp           // wrapper of the replica's mempool.App
 	flightJudged, flightParked                  int
+	lk                                          *kernel.Tape // object-history looks (stream of its own)
+	zeroFunded                                  bool         // the zero address holds coin and tokens in this run
 }
 
 func run(c *kernel.Ctx) {
@@ -153,6 +155,7 @@ func (r *runner) main() {
 	r.wl = c.Tape.Fork("workload")
 	r.tm = c.Tape.Fork("tamper")
 	r.fl = c.Tape.Fork("flight")
+	r.lk = c.Tape.Fork("looks")
 	deep := c.Tier == kernel.Thorough
 
 	cfg := runCfg{NVals: 1 + ct.Int(4), NUsers: 4 + ct.Int(5), IsTrie: ct.Bool(1, 2)}
@@ -220,6 +223,16 @@ func (r *runner) main() {
 			}
 			r.funded = append(r.funded, u)
 		}
+	}
+	// in a third of the runs the zero address is a funded account, so that a
+	// transaction attributed to "no sender" moves real funds
+	if zt := c.Tape.Fork("zero"); zt.Bool(1, 3) {
+		r.zeroFunded = true
+		spec.Alloc = append(spec.Alloc, simnode.Alloc{Addr: common.Address{}, Balance: lkc(100000), Nonce: uint64(zt.Int(3))})
+		for _, t := range w.tokens {
+			toks = append(toks, tokenAlloc{common.Address{}, t, big.NewInt(1000000)})
+		}
+		c.Probe("zero-address-funded")
 	}
 	w.spec = spec
 
